@@ -7,11 +7,17 @@ SPEC = {
     # source on every run.  That is validation of this tree against the model per run, not a proof
     # about the Go code: level translation_validation; the proof obligations are reported as well.
     "level": "translation_validation",
-    "theorem_modules": ["GluonModel.Theorems.C08", "GluonModel.Theorems.C08Sql"],
+    "theorem_modules": ["GluonModel.Theorems.C08", "GluonModel.Theorems.C08Sql", "GluonModel.Theorems.C08Client"],
     "correspondences": [
         # one op line = one session on a fresh database (40-300 tokens: transactions, calls, dumps; probe sessions
         # - change, look up inside the transaction, abort or commit, look up again in Read and Write - 300-2500 tokens;
-        # about a quarter of the lines, plus two directed lines that walk through every identifier-introducing method)
+        # about a quarter of the lines, plus two directed lines that walk through every identifier-introducing method).
+        # Every session runs against one of the four client variants sqlite3.NewBuilder can build (plain, Debug(), Trace(),
+        # both; rotating, starting point from the seed; the first four lines are one tour through all methods per variant with a
+        # dump after every transaction); `grow:<k>` tokens (k = 2, 3, 8 overlapping Client.Read closures) before two thirds of the
+        # sessions and between transactions make the database/sql pool open further connections, so that the sequential
+        # rest runs on another connection than the one Client.Init configured; three directed lines about the referential
+        # actions (cascades, reference checks) without / after growth
         {"dialect": "db", "quick_n": 400, "thorough_n": 5000, "judge": "judge-c08-db"},
     ],
     "oracles": [],
@@ -30,7 +36,13 @@ SPEC = {
         "surplus bind arguments are ignored, missing ones are an error; AUTOINCREMENT; UNIQUE / PRIMARY KEY / NOT NULL / "
         "FOREIGN KEY (ON DELETE CASCADE, SET NULL) with foreign_keys=ON; BINARY collation",
         "facts translator harness/facts_chunk.go (go/ast): chunk-loop shapes and SQL text shapes of the two files",
-        "hook verifhooks.NewSQLiteDB() (exposes the internal db.ClientInterface)",
+        "facts translator harness/facts_dbclient.go (go/ast): connection-string options / sql.Open / Init pragmas of client.go, the "
+        "delegation of every method of utils.ReadTracer, WriteTracer, DBWrapper, TXWrapper, DebugQueryWrapper, DebugStmtWrapper, the "
+        "wrapper literals of Client.Read / Client.Write; mattn/go-sqlite3 applies `_fk`/`_foreign_keys` of the connection string to "
+        "every connection it opens",
+        "hook verifhooks.NewSQLiteDB() (exposes the internal db.ClientInterface); the harness sets the builder's `debug` / `trace` "
+        "switches (what the internal options Debug() / Trace() do) and reads the client's *sql.DB field by reflection "
+        "(pool statistics, `PRAGMA foreign_keys` on every idle connection); without that field the pool is still grown, blindly",
     ],
     "assumptions": [
         "a transaction is abandoned at the first failing call (what every caller in gluon does); the state SQLite keeps "
@@ -41,17 +53,21 @@ SPEC = {
         "with at least one flag (the empty cases panic / are an SQL syntax error: corpus/C08/pending/)",
         "results of SELECTs without ORDER BY are compared as sorted lists; flag sets are compared lower-cased (the table "
         "dump compares the exact spelling)",
-        "database migrations from older schema versions, concurrent transactions and the Read/Write lock are not covered "
-        "(C07, C19)",
+        "database migrations from older schema versions, concurrent write transactions and the Read/Write lock are not covered "
+        "(C07, C19); overlapping Client.Read closures are run (token grow:<k>) only to make the pool grow and to compare what they "
+        "read with a sequential Read - which connection the rest of the session then runs on is up to database/sql and the scheduler",
     ],
     "explanation": "Lean relational model of the SQLite index with one function per db.ReadOnly/db.Transaction method; "
                    "theorems: every chunked operation equals its un-chunked meaning for all list lengths (call-site facts "
-                   "regenerated and decided), failed Write leaves no trace; correspondence: sessions of all 69 interface "
+                   "regenerated and decided), failed Write leaves no trace, foreign keys are on for every pooled connection and every "
+                   "tracer/debug decorator method calls its namesake with its own arguments (facts about client.go and utils/, "
+                   "regenerated and decided); correspondence: sessions of all 69 interface "
                    "methods with list lengths around ChunkLimit/2, ChunkLimit, 2*ChunkLimit against the real client, and probe "
                    "sessions in which a write transaction changes something, reads it back through every lookup keyed by the "
                    "identifiers it introduced/replaced/removed (remote ids, names, internal ids incl. the next AUTOINCREMENT "
                    "value, message ids, message remote ids), is aborted (by returning an error or by a failing lookup) or "
                    "committed, and the same lookups are repeated in later Read and Write transactions (state kept next to the "
-                   "SQL transaction: survives a rollback / goes stale after a commit); judge: real client vs un-chunked "
-                   "meaning call by call",
+                   "SQL transaction: survives a rollback / goes stale after a commit), all of it against the plain, Debug(), Trace() and "
+                   "Debug()+Trace() clients and on connections the pool opened after overlapping reads; judge: real client vs un-chunked "
+                   "meaning call by call, table dumps vs the meaning's tables, every pooled connection enforces foreign keys",
 }
